@@ -42,7 +42,20 @@ def steps_search(inp):
                 if abs(q - near) >= Fraction(1, 10 ** 6) and got != q.numerator // q.denominator:
                     return {'violates': True, 'input': {'start_time': start, 'end_time': end, 'dt': dt},
                             'observed_steps': int(got), 'required_steps': int(q.numerator // q.denominator)}
-    return {'violates': False, 'searched': 'dt in 10 literals x start in 3 x m<=1000'}
+    # ends just below a grid point (clearly off-grid: the spec demands the floor)
+    for dts in ('0.05', '0.1', '0.01'):
+        dt = float(dts)
+        for start in (0.0, 1.0):
+            for m in (5, 50, 200, 1000, 5000):
+                for f in (3e-8, 1e-7, 1e-6, 1e-5, 1e-4, 1e-3):
+                    end = start + (m - f) * dt
+                    got = _steps_real(target, start, end, dt)
+                    q = (Fraction(end) - Fraction(start)) / Fraction(dt)
+                    near = round(q)
+                    if abs(q - near) >= Fraction(1, 10 ** 6) and got != q.numerator // q.denominator:
+                        return {'violates': True, 'input': {'start_time': start, 'end_time': end, 'dt': dt},
+                                'observed_steps': int(got), 'required_steps': int(q.numerator // q.denominator)}
+    return {'violates': False, 'searched': 'dt in 10 literals x start in 3 x m<=1000, and ends just below grid points'}
 
 
 def compute_dynamics_times(inp):
